@@ -107,6 +107,7 @@ class Report:
         self.trusted = []
         self.not_decided = []
         self.assumptions = []
+        self.undecided = []
 
     # -- obligations -------------------------------------------------------------------------
     def ok(self, rule, instance, nontrivial=False, sample=None):
@@ -122,6 +123,15 @@ class Report:
         if all(x.key != f.key for x in self.findings):
             self.findings.append(f)
         self.obligations.append({"rule": rule, "instance": f"{module}:{func}: {norm(c)}", "ok": False, "nontrivial": bool(nontrivial)})
+
+    def attempt(self, fn, *args, **kw):
+        """Run one rule; if it cannot decide (AnalysisError) remember that instead of aborting the other rules.
+        A definite violation found elsewhere is still reported (exit 1); with no violation the run is undecided (exit 2)."""
+        try:
+            return fn(*args, **kw)
+        except AnalysisError as e:
+            self.undecided.append(str(e))
+            return None
 
     def note(self, text):
         if text not in self.notes:
@@ -166,9 +176,14 @@ class Report:
             code = 1
         n_ob = len(self.obligations)
         n_ok = sum(1 for o in self.obligations if o["ok"])
+        for u in self.undecided:
+            print(f"ANALYSIS-ERROR property={self.prop} {u}")
+        if code == 0 and self.undecided:
+            self.write_evidence(len(new), len(old), error="; ".join(self.undecided))
+            return 2
         if code == 0:
             print(f"OK property={self.prop} obligations={n_ob} discharged={n_ok} known_findings={len(old)}")
-        self.write_evidence(len(new), len(old))
+        self.write_evidence(len(new), len(old), error="; ".join(self.undecided) if self.undecided else None)
         return code
 
     def write_evidence(self, n_viol, n_known, error=None):
